@@ -441,15 +441,23 @@ def _build_string(case: dict[str, Any], rig: _Rig) -> None:
         )
 
         pool = FormulaEnginePool("ns", registry, sub.new_sender())
-        decoys = {text.replace("(", "").replace(")", "")}
+        ranked: list[tuple[int, str]] = [(2, text.replace("(", "").replace(")", ""))]
         stack: list[int] = []
-        for pos, ch in enumerate(text):      # ... and the text with one pair of parentheses removed, for up to 5 pairs
+        for pos, ch in enumerate(text):      # ... and the text with one pair of parentheses removed
             if ch == "(":
                 stack.append(pos)
             elif ch == ")" and stack:
                 start = stack.pop()
-                decoys.add(text[:start] + text[start + 1:pos] + text[pos + 1:])
-        for decoy in sorted(decoys - {text})[:3]:
+                inner = text[start + 1:pos]
+                before = text[:start].rstrip()
+                # pairs that change the meaning come first: a group right of '/' or '-', or one holding a weaker operator
+                rank = 0 if before.endswith(("/", "-")) else 1 if before.endswith("*") and ("+" in inner or "-" in inner) else 3
+                ranked.append((rank, text[:start] + inner + text[pos + 1:]))
+        decoys = []
+        for _, d in sorted(ranked):
+            if d != text and d not in decoys:
+                decoys.append(d)
+        for decoy in decoys[:3]:
             rig.keep.append(pool.from_string(decoy, ComponentMetricId.ACTIVE_POWER, nones_are_zeros=case["global_zero"]))
             rig.keep.append(str(rig.keep[-1]))
         rig.engine = pool.from_string(text, ComponentMetricId.ACTIVE_POWER, nones_are_zeros=case["global_zero"])
